@@ -20,6 +20,19 @@ def _dotted(e):
     return None
 
 
+IMPORT_ALIASES = {}     # local name -> dotted origin, filled by derive() from the module's imports (import typing as t, from typing import Optional as Opt)
+
+
+def _resolve(d):
+    if d is None:
+        return None
+    head, _, rest = d.partition(".")
+    origin = IMPORT_ALIASES.get(head)
+    if origin and origin != head:
+        return origin + ("." + rest if rest else "")
+    return d
+
+
 def classify(ann, classes):
     """Annotation AST -> hint shape (nested tuples):
     ('any',) ('prim', k) ('bytes',) ('bytearray',) ('bytesio',) ('opt', X) ('u604', X) ('list', X) ('listbare',)
@@ -31,7 +44,7 @@ def classify(ann, classes):
             return ("other", ann.value)
     if isinstance(ann, ast.Constant) and ann.value is None:
         return ("none",)
-    d = _dotted(ann)
+    d = _resolve(_dotted(ann))
     if d is not None:
         short = d.split(".")[-1]
         if d in ("typing.Any", "Any"):
@@ -52,7 +65,7 @@ def classify(ann, classes):
             return ("cls", short)
         return ("other", d)
     if isinstance(ann, ast.Subscript):
-        base = _dotted(ann.value)
+        base = _resolve(_dotted(ann.value))
         args = list(ann.slice.elts) if isinstance(ann.slice, ast.Tuple) else [ann.slice]
         if base in ("typing.List", "List", "list") and len(args) == 1:
             return ("list", classify(args[0], classes))
@@ -91,6 +104,14 @@ def derive(repo=None):
     """{'classes': {name: {'fields': [(name, shape, has_default)], 'bases': [...], 'post_init': bool, 'dict_subclass': bool}},
         'all_classes': [...], 'imports': {...}} from the AST."""
     m = loader.module(DT_PY, repo)
+    IMPORT_ALIASES.clear()
+    for node in m.tree.body:
+        if isinstance(node, ast.Import):
+            for a in node.names:
+                IMPORT_ALIASES[a.asname or a.name.split(".")[0]] = a.name if a.asname else a.name.split(".")[0]
+        elif isinstance(node, ast.ImportFrom) and node.module in ("typing", "io", "dataclasses"):
+            for a in node.names:
+                IMPORT_ALIASES[a.asname or a.name] = f"{node.module}.{a.name}"
     top = {n.name: n for n in m.tree.body if isinstance(n, ast.ClassDef)}
     out = {}
 
@@ -196,3 +217,286 @@ def first_component_kinds(fnode, param_kinds):
             else:
                 rets.append((n.lineno, {"unknown"}))
     return rets
+
+
+# ------------------------------------------------- provenance of stored cell values --
+# Abstract shapes: "bot" (nothing yet) | "n" (JSON-able scalar: result of a cell normaliser, a str / number / bool / None built in
+# place) | ("list", s) | ("dict", s) | ("tuple", (s1, ...)) | "raw" (anything else).  Flow-insensitive fixpoint over one function
+# body: comprehensions, loops (incl. enumerate / zip), appends / extends / item stores, tuple unpacking, slices, repetition.
+def sjoin(a, b):
+    if a == "bot":
+        return b
+    if b == "bot" or a == b:
+        return a
+    if isinstance(a, tuple) and isinstance(b, tuple) and a[0] == b[0]:
+        if a[0] in ("list", "dict"):
+            return (a[0], sjoin(a[1], b[1]))
+        if a[0] == "tuple" and len(a[1]) == len(b[1]):
+            return ("tuple", tuple(sjoin(x, y) for x, y in zip(a[1], b[1])))
+    return "raw"
+
+
+def selem(s):
+    if s == "bot":
+        return "bot"
+    if isinstance(s, tuple) and s[0] in ("list", "dict"):
+        return s[1]
+    if isinstance(s, tuple) and s[0] == "tuple":
+        out = "bot"
+        for x in s[1]:
+            out = sjoin(out, x)
+        return out
+    return "raw"
+
+
+def sok(s):
+    if s in ("bot", "n"):
+        return True
+    if s == "raw":
+        return False
+    if s[0] == "tuple":
+        return all(sok(x) for x in s[1])
+    return sok(s[1])
+
+
+def stext(s):
+    if isinstance(s, str):
+        return s
+    if s[0] == "tuple":
+        return "(" + ", ".join(stext(x) for x in s[1]) + ")"
+    return f"{s[0]}[{stext(s[1])}]"
+
+
+class Provenance:
+    def __init__(self, fnode, normalisers):
+        self.fn, self.norm = fnode, normalisers          # {callee name: result shape}
+        self.env = {}
+        self.alias = {}          # name -> representative (x = y for containers: stores through either name reach both)
+        params = [a.arg for a in fnode.args.posonlyargs + fnode.args.args + fnode.args.kwonlyargs]
+        for p in params:
+            self.env[p] = "raw"
+        for _ in range(6):
+            before = dict(self.env)
+            self.block(fnode.body)
+            if self.env == before:
+                break
+
+    def get(self, name):
+        return self.env.get(name, "bot")
+
+    def root(self, name):
+        while self.alias.get(name, name) != name:
+            name = self.alias[name]
+        return name
+
+    def put(self, name, shape):
+        r = self.root(name)
+        for nm in [n for n in set(self.env) | {name} if self.root(n) == r]:
+            self.env[nm] = sjoin(self.get(nm), shape)
+
+    def bind(self, target, shape):
+        if isinstance(target, ast.Name):
+            self.put(target.id, shape)
+        elif isinstance(target, (ast.Tuple, ast.List)):
+            if isinstance(shape, tuple) and shape[0] == "tuple" and len(shape[1]) == len(target.elts):
+                for t, s_ in zip(target.elts, shape[1]):
+                    self.bind(t, s_)
+            else:
+                for t in target.elts:
+                    self.bind(t, selem(shape) if shape != "bot" else "bot")
+        elif isinstance(target, ast.Subscript) and isinstance(target.value, ast.Name) and not isinstance(target.slice, ast.Slice):
+            cur = self.get(target.value.id)
+            kind = "list" if isinstance(cur, tuple) and cur[0] == "list" else "dict"
+            self.put(target.value.id, (kind, shape))
+        elif isinstance(target, ast.Starred):
+            self.bind(target.value, "raw")
+        # attribute stores are sinks, handled by the caller
+
+    def ev(self, e):
+        if e is None:
+            return "bot"
+        if isinstance(e, ast.Constant):
+            return "n" if e.value is None or isinstance(e.value, (str, int, float, bool)) else "raw"
+        if isinstance(e, ast.JoinedStr):
+            return "n"
+        if isinstance(e, ast.Name):
+            return self.get(e.id) if e.id in self.env else ("n" if e.id in ("True", "False", "None") else "raw")
+        if isinstance(e, ast.IfExp):
+            return sjoin(self.ev(e.body), self.ev(e.orelse))
+        if isinstance(e, ast.BoolOp):
+            out = "bot"
+            for v in e.values:
+                out = sjoin(out, self.ev(v))
+            return out
+        if isinstance(e, (ast.Compare,)) or (isinstance(e, ast.UnaryOp) and isinstance(e.op, ast.Not)):
+            return "n"
+        if isinstance(e, ast.NamedExpr):
+            s_ = self.ev(e.value)
+            self.bind(e.target, s_)
+            return s_
+        if isinstance(e, (ast.List, ast.Set)):
+            out = "bot"
+            for x in e.elts:
+                out = sjoin(out, self.ev(x))
+            return ("list", out)
+        if isinstance(e, ast.Tuple):
+            return ("tuple", tuple(self.ev(x) for x in e.elts))
+        if isinstance(e, ast.Dict):
+            out = "bot"
+            for k, v in zip(e.keys, e.values):
+                out = sjoin(out, self.ev(v) if k is not None else selem(self.ev(v)))
+            return ("dict", out)
+        if isinstance(e, (ast.ListComp, ast.GeneratorExp, ast.SetComp, ast.DictComp)):
+            for g in e.generators:
+                self.bind(g.target, selem(self.ev(g.iter)))
+            if isinstance(e, ast.DictComp):
+                return ("dict", self.ev(e.value))
+            return ("list", self.ev(e.elt))
+        if isinstance(e, ast.Subscript):
+            base = self.ev(e.value)
+            if isinstance(e.slice, ast.Slice):
+                return base
+            if isinstance(base, tuple) and base[0] == "tuple" and isinstance(e.slice, ast.Constant) and isinstance(e.slice.value, int) \
+                    and -len(base[1]) <= e.slice.value < len(base[1]):
+                return base[1][e.slice.value]
+            return selem(base)
+        if isinstance(e, ast.BinOp):
+            l, r = self.ev(e.left), self.ev(e.right)
+            if isinstance(e.op, ast.Mult):
+                return l if isinstance(l, tuple) and l[0] == "list" else (r if isinstance(r, tuple) and r[0] == "list" else ("n" if l == r == "n" else "raw"))
+            if isinstance(e.op, ast.Add):
+                return sjoin(l, r)
+            return "n" if l == r == "n" else "raw"
+        if isinstance(e, ast.Call):
+            f = e.func
+            name = f.id if isinstance(f, ast.Name) else None
+            if name in self.norm:
+                return self.norm[name]
+            if name in ("str", "int", "float", "bool", "len", "repr"):
+                return "n"
+            if name in ("list", "tuple", "sorted", "reversed", "set") and len(e.args) >= 1:
+                return ("list", selem(self.ev(e.args[0])))
+            if name in ("list", "dict") and not e.args and not e.keywords:
+                return (name, "bot")
+            if name == "enumerate" and e.args:
+                return ("list", ("tuple", ("n", selem(self.ev(e.args[0])))))
+            if name == "zip":
+                return ("list", ("tuple", tuple(selem(self.ev(a)) for a in e.args)))
+            if name == "dict" and len(e.args) == 1:
+                s_ = self.ev(e.args[0])
+                el = selem(s_)
+                if isinstance(s_, tuple) and s_[0] == "dict":
+                    return s_
+                if isinstance(el, tuple) and el[0] == "tuple" and len(el[1]) == 2:
+                    return ("dict", el[1][1])
+                return "raw"
+            if isinstance(f, ast.Attribute):
+                base = self.ev(f.value)
+                if f.attr in ("copy",):
+                    return base
+                if f.attr in ("get", "pop", "setdefault") and isinstance(base, tuple) and base[0] in ("dict", "list"):
+                    out = base[1]
+                    for a in e.args[1:]:
+                        out = sjoin(out, self.ev(a))
+                    return out
+                if f.attr in ("values",) and isinstance(base, tuple) and base[0] == "dict":
+                    return ("list", base[1])
+                if f.attr == "items" and isinstance(base, tuple) and base[0] == "dict":
+                    return ("list", ("tuple", ("n", base[1])))
+                if f.attr == "keys" and isinstance(base, tuple) and base[0] == "dict":
+                    return ("list", "n")
+                if f.attr in ("join", "strip", "lower", "upper", "format", "rstrip", "lstrip", "isoformat") and (base == "n" or isinstance(f.value, ast.Constant)):
+                    return "n"
+            return "raw"
+        return "raw"
+
+    def block(self, stmts):
+        for st in stmts:
+            self.stmt(st)
+
+    def stmt(self, st):
+        if isinstance(st, ast.Assign):
+            s_ = self.ev(st.value)
+            for t in st.targets:
+                if isinstance(t, ast.Name) and isinstance(st.value, ast.Name) and self.root(t.id) != self.root(st.value.id):
+                    self.alias[self.root(t.id)] = self.root(st.value.id)
+                self.bind(t, s_)
+        elif isinstance(st, ast.AnnAssign) and st.value is not None:
+            self.bind(st.target, self.ev(st.value))
+        elif isinstance(st, ast.AugAssign):
+            self.bind(st.target, self.ev(ast.BinOp(left=_load(st.target), op=st.op, right=st.value)))
+        elif isinstance(st, ast.Expr):
+            e = st.value
+            if isinstance(e, ast.Call) and isinstance(e.func, ast.Attribute) and isinstance(e.func.value, ast.Name):
+                acc, m = e.func.value.id, e.func.attr
+                if m == "append" and len(e.args) == 1:
+                    self.put(acc, ("list", self.ev(e.args[0])))
+                    return
+                if m == "insert" and len(e.args) == 2:
+                    self.put(acc, ("list", self.ev(e.args[1])))
+                    return
+                if m == "extend" and len(e.args) == 1:
+                    self.put(acc, ("list", selem(self.ev(e.args[0]))))
+                    return
+                if m == "update" and len(e.args) == 1:
+                    self.put(acc, ("dict", selem(self.ev(e.args[0])) if self.ev(e.args[0]) != "raw" else "raw"))
+                    return
+                if m == "setdefault" and len(e.args) == 2:
+                    self.put(acc, ("dict", self.ev(e.args[1])))
+                    return
+                if m in ("pop", "clear", "sort", "reverse", "remove"):
+                    return
+                if isinstance(self.get(acc), tuple):      # an unknown method of a tracked container may store anything
+                    self.put(acc, "raw")
+                    return
+            self.ev(e)
+        elif isinstance(st, (ast.For, ast.AsyncFor)):
+            self.bind(st.target, selem(self.ev(st.iter)))
+            self.block(st.body)
+            self.block(st.orelse)
+        elif isinstance(st, ast.While):
+            self.ev(st.test)
+            self.block(st.body)
+            self.block(st.orelse)
+        elif isinstance(st, ast.If):
+            self.ev(st.test)
+            self.block(st.body)
+            self.block(st.orelse)
+        elif isinstance(st, (ast.With, ast.AsyncWith)):
+            for it in st.items:
+                if it.optional_vars is not None:
+                    self.bind(it.optional_vars, "raw")
+            self.block(st.body)
+        elif isinstance(st, ast.Try):
+            self.block(st.body)
+            for h in st.handlers:
+                self.block(h.body)
+            self.block(st.orelse)
+            self.block(st.finalbody)
+        elif isinstance(st, ast.Return):
+            self.ev(st.value)
+
+    def sinks(self, kind, a=None, b=None):
+        """[(lineno, shape)] of what reaches the sink: ('return', None) | ('kwarg', callee, kw) | ('attr', name)."""
+        out = []
+        for n in ast.walk(self.fn):
+            if kind == "return" and isinstance(n, ast.Return) and n.value is not None:
+                out.append((n.lineno, self.ev(n.value)))
+            elif kind == "kwarg" and isinstance(n, ast.Call) and (getattr(n.func, "id", None) == a or getattr(n.func, "attr", None) == a):
+                for k in n.keywords:
+                    if k.arg == b:
+                        out.append((n.lineno, self.ev(k.value)))
+            elif kind == "attr" and isinstance(n, ast.Assign):
+                for t in n.targets:
+                    if isinstance(t, ast.Attribute) and t.attr == a:
+                        out.append((n.lineno, self.ev(n.value)))
+        return out
+
+
+def _load(t):
+    import copy
+    t2 = copy.deepcopy(t)
+    for n in ast.walk(t2):
+        if hasattr(n, "ctx"):
+            n.ctx = ast.Load()
+    return t2
